@@ -88,6 +88,15 @@ def cases(tier, seed):
                 ext += [[new, o] for o in ops] + [[o, new] for o in ops] + [[o, new, "pred"] for o in ops]
             for seq in ext:
                 yield {"family": fam, "seq": seq, "mseed": rnd.randrange(1000)}
+        # a prior-mode call under other jitter settings between two predictions (the second one under those settings)
+        if fam != "batch_nan":
+            for seq in (["pred", "prior_jitter", "pred_jitter"], ["pred_jitter", "prior", "pred"], ["pred", "prior_jitter", "pred"]):
+                yield {"family": fam, "seq": seq, "mseed": rnd.randrange(1000)}
+                yield {"family": fam, "seq": seq, "mseed": rnd.randrange(1000), "unobserved": True}
+        # the same directed sandwiches WITHOUT the probe prediction after every step (the probe is an operation too and can
+        # repair what the history broke): only the operations' own outputs and the final state are compared
+        for seq in pick[: (40 if tier == "quick" else 400)]:
+            yield {"family": fam, "seq": list(seq), "mseed": rnd.randrange(1000), "unobserved": True}
         nlong = 25 if tier == "quick" else 400
         for _ in range(nlong):
             L = rnd.randint(4, 8)
@@ -189,6 +198,8 @@ def _run_case(case, ctx, fam):
             saw_pred_before_change = True
         _ST["step"] = i + 0.5
         last = i == len(case["seq"]) - 1
+        if case.get("unobserved") and not last:
+            continue  # (the probe prediction after every step is itself an operation: these histories are only looked at through their own operations and at the end)
         mon = "final_matches_fresh" if last else "step_matches_fresh"
         fresh = H.fresh_like(state, m)
         for cfg in cfgs:
